@@ -75,7 +75,7 @@ type vrec struct {
 	Class string  `json:"class,omitempty"`
 	DB    []vnode `json:"db,omitempty"`
 	Q     string  `json:"q,omitempty"`
-	Res   string  `json:"res,omitempty"` // ok, missing, err-other, crash, hang
+	Res   string  `json:"res,omitempty"` // ok, missing, cycle, err-other, crash, hang
 	Miss  string  `json:"miss,omitempty"`
 	Cfg   []vval  `json:"cfg,omitempty"`
 	Key   string  `json:"key,omitempty"`
@@ -167,7 +167,7 @@ func vlin(db map[string]*vnode, n string, stack map[string]bool) ([]string, stri
 		return nil, "missing:" + n
 	}
 	if stack[n] {
-		return nil, "cycle"
+		return nil, "cycle:" + n
 	}
 	stack[n] = true
 	defer delete(stack, n)
@@ -249,6 +249,11 @@ type vresult struct {
 
 func vclassifyErr(err error) (string, string) {
 	msg := err.Error()
+	const cyc = "inheritance cycle in target config: "
+	if i := strings.LastIndex(msg, cyc); i >= 0 {
+		chain := strings.Split(msg[i+len(cyc):], " -> ")
+		return "cycle", chain[len(chain)-1]
+	}
 	const pat = "failed to read target config "
 	if i := strings.LastIndex(msg, pat); i >= 0 {
 		rest := msg[i+len(pat):]
@@ -570,12 +575,16 @@ func vcheckAgainstLaw(class string, nodes []vnode, dbm map[string]*vnode, q stri
 		vemit(vrec{Kind: "viol", Key: key, What: what, Class: class, DB: nodes, Q: q, Res: got.Res, Miss: got.Miss, Err: got.Err, Cfg: got.Cfg, Exp: st})
 	}
 	switch {
-	case st == "cycle":
+	case strings.HasPrefix(st, "cycle:"):
 		switch got.Res {
+		case "cycle":
+			if got.Miss != st[6:] {
+				viol("cycle-error-wrong-name", "error names "+got.Miss+", the description entered twice is "+st[6:])
+			}
 		case "missing", "err-other":
 			// an error: what the property asks for
 		case "crash":
-			viol("cyclic-inherits-stack-overflow", "Resolve("+q+") on a cyclic inherits chain does not return an error: "+detail)
+			viol("cyclic-inherits-unbounded-recursion", "Resolve("+q+") on a cyclic inherits chain does not return an error: "+detail)
 		case "hang":
 			viol("cyclic-inherits-hang", "Resolve("+q+") on a cyclic inherits chain does not return: "+detail)
 		case "ok":
@@ -769,6 +778,7 @@ func TestVerif(t *testing.T) {
 		nodes []vnode
 		dbm   map[string]*vnode
 		q     string
+		st    string
 	}
 	var childJobs []job
 	ncycle := 0
@@ -818,8 +828,8 @@ func TestVerif(t *testing.T) {
 		}
 		for _, q := range qnames {
 			_, st := vlin(fdb, q, map[string]bool{})
-			if st == "cycle" {
-				childJobs = append(childJobs, job{dir, fo, flat, fdb, q})
+			if strings.HasPrefix(st, "cycle:") {
+				childJobs = append(childJobs, job{dir, fo, flat, fdb, q, st})
 				continue
 			}
 			got, _ := vresToChild(vresolveWith(NewResolver(dir), q), fields)
@@ -844,7 +854,7 @@ func TestVerif(t *testing.T) {
 			defer wg.Done()
 			defer func() { <-sem }()
 			got, detail := vrunChild(j.dir, j.q)
-			vemit(vrec{Kind: "forest", Class: j.fo.class, DB: j.nodes, Q: j.q, Res: got.Res, Miss: got.Miss, Cfg: got.Cfg, Err: got.Err, Exp: "cycle", What: detail})
+			vemit(vrec{Kind: "forest", Class: j.fo.class, DB: j.nodes, Q: j.q, Res: got.Res, Miss: got.Miss, Cfg: got.Cfg, Err: got.Err, Exp: j.st, What: detail})
 			vcheckAgainstLaw(j.fo.class, j.nodes, j.dbm, j.q, got, fields, detail)
 		}(j)
 	}
